@@ -173,8 +173,12 @@ type Listener struct {
 	ch     chan net.Conn
 	closed chan struct{}
 	once   sync.Once
+	held   []*Conn
 	// Refuse: dialing fails (peer that never accepts)
 	Refuse bool
+	// Silent: the stream is accepted but nobody ever answers on it (a hung process behind an open
+	// port): the dialler's TLS handshake never completes
+	Silent bool
 	// OnAccept may wrap/record the raw server-side stream
 	OnAccept func(raw *Conn)
 }
@@ -200,6 +204,11 @@ func (l *Listener) DialRaw(name string) (*Conn, error) {
 		return nil, errors.New("connection refused")
 	}
 	c, s := Pipe(name)
+	if l.Silent {
+		_ = s // the server end is held and never serviced
+		l.held = append(l.held, s)
+		return c, nil
+	}
 	if l.OnAccept != nil {
 		l.OnAccept(s)
 	}
